@@ -13,6 +13,8 @@ import (
 	mrand "math/rand"
 	"os"
 	"sort"
+	"strconv"
+	"strings"
 
 	"go.1password.io/spg"
 )
@@ -134,6 +136,7 @@ func cmdDraw(args []string) {
 	tier := fs.String("tier", "quick", "")
 	out := fs.String("out", "draw.ndjson", "")
 	shards := fs.Int("shards", 1, "write out.<k> files")
+	only := fs.String("bounds", "", "comma-separated bounds to probe instead of the tier's set")
 	fs.Parse(args)
 	rng := mrand.New(mrand.NewSource(*seed))
 	ems := make([]*Emitter, *shards)
@@ -141,6 +144,15 @@ func cmdDraw(args []string) {
 		ems[i] = NewEmitter(fmt.Sprintf("%s.%d", *out, i))
 	}
 	bounds := boundsFor(*tier, rng)
+	if *only != "" {
+		bounds = nil
+		for _, f := range strings.Split(*only, ",") {
+			v, err := strconv.ParseUint(strings.TrimSpace(f), 10, 32)
+			if err == nil && v >= 1 {
+				bounds = append(bounds, uint32(v))
+			}
+		}
+	}
 	nb := 0
 	for _, n := range bounds {
 		em := ems[nb%*shards]
